@@ -309,3 +309,228 @@ def operand_for(rng, r):
     if k == 'Not':
         return operand_for(rng, r[1])
     return value(rng, 2)
+
+
+# ---------------- policies / inquiries / scenarios ----------------
+
+EFFECTS = ['allow'] * 12 + ['deny'] * 4 + ['ALLOW', None, '', 0, 'Allow ', 'allow\n', 1, True]
+LIT_ALPHA = 'ab:/.+$ xé'
+
+
+def str_element(rng, tags=('<', '>'), max_segs=2, unbalanced=True):
+    """-> (element text, [(segment source, rx)], a value that should match (or None))"""
+    st, en = tags
+    r = rng.random()
+    if unbalanced and r < 0.06:
+        e = rng.choice([st + 'a', 'a' + en, st + st + 'a' + en, 'a' + en + st, st, en, en + st])
+        return e, [], None
+    nseg = rng.choice([0, 0, 0, 1, 1, 2][:3 + 3 * (max_segs > 0)] if max_segs < 2 else [0, 0, 0, 1, 1, 1, 2, 2, 3])
+    nseg = min(nseg, max_segs)
+    text, table, sample = '', [], ''
+    for k in range(nseg + 1):
+        lit = ''.join(rng.choice(LIT_ALPHA) for _ in range(rng.choice([0, 0, 1, 2, 3])))
+        if nseg == 0 and not lit:
+            lit = rng.choice(['get', 'a', 'Max', 'x', ''])
+        text += lit
+        sample += lit
+        if k < nseg:
+            x = rx(rng, rng.choice([0, 1, 2]), 'abc1')
+            src = _rx_show(x)
+            if rng.random() < 0.15:
+                # nested delimiters inside a segment (balanced): a char class containing both tags
+                x = ['cat', x, ['opt', ['cat', ['chr', ord(st)], ['chr', ord(en)]]]] if len(st) == 1 and len(en) == 1 and st != en else x
+                src = _rx_show(x)
+            text += st + src + en
+            table.append([src, x])
+            sample += rx_sample(rng, x)
+    return text, table, sample
+
+
+def _rx_show(x):
+    from .specs import rx_show
+    return rx_show(x)
+
+
+def string_policy(rng, uid, tags=('<', '>'), max_segs=2, wrapped=True):
+    table = []
+    samples = {}
+    fields = {}
+    for f in ('subjects', 'resources', 'actions'):
+        els = []
+        smp = []
+        for _ in range(rng.choice([0] + [1] * 12 + [2] * 5 + [3])):
+            if wrapped and rng.random() < 0.12:
+                w = rng.choice(['a', 'get', 'Max', ''])
+                e, t, s = tags[0] + w + tags[1], [[w, rx_of_literal(w)]], w
+            else:
+                e, t, s = str_element(rng, tags, max_segs)
+            els.append(['s', e])
+            table += t
+            stripped = e[1:-1] if (e and e[0] == tags[0] and e[-1] == tags[1]) else e
+            i0 = rng.randint(0, len(stripped))
+            smp.append({'CRegex': s, 'CExact': stripped, 'CFuzzy': stripped[i0:rng.randint(i0, len(stripped))],
+                        'CRules': s})
+        fields[f] = els
+        samples[f] = smp
+    ctx, ctx_samples = context_spec(rng)
+    p = {'uid': uid, 'effect': rng.choice(EFFECTS), 'subjects': fields['subjects'], 'resources': fields['resources'],
+         'actions': fields['actions'], 'context': ctx, 'description': rng.choice([None, 'd%s' % uid, 'é']),
+         'tags': list(tags)}
+    return p, table, samples, ctx_samples
+
+
+def rx_of_literal(w):
+    """regex AST denoting exactly the literal w, the way re reads the source text w (no metacharacters in w)"""
+    if not w:
+        return ['eps']
+    out = ['chr', ord(w[-1])]
+    for c in reversed(w[:-1]):
+        out = ['cat', ['chr', ord(c)], out]
+    return out
+
+
+def sat_rule(rng, depth, raising=True, inquiry_rules=True):
+    """(rule spec, operand) where the operand most likely satisfies the rule"""
+    from .specs import mk_rule
+    r = v = None
+    for _ in range(4):
+        r = rule(rng, depth, inquiry_rules=inquiry_rules, raising=raising)
+        v = satisfying_operand(rng, r)
+        try:
+            if mk_rule(r).satisfied(v, None):
+                return r, v
+        except Exception:  # noqa
+            pass
+        if rng.random() < 0.25:
+            break
+    return r, v
+
+
+def satisfying_operand(rng, r, tries=8):
+    """an operand on which the real rule is (likely) satisfied; falls back to any related operand"""
+    from .specs import mk_rule, jv as _jv
+    try:
+        obj = mk_rule(r)
+    except Exception:  # noqa
+        return operand_for(rng, r)
+    v = None
+    for _ in range(tries):
+        v = operand_for(rng, r)
+        try:
+            _jv(v)
+            if obj.satisfied(v, None):
+                return v
+        except Exception:  # noqa
+            pass
+    return v
+
+
+def context_spec(rng, raising=True):
+    ctx = []
+    smp = {}
+    for k in rng.sample(['ip', 'k', 'name', 'ж'], rng.choice([0, 0, 0, 0, 0, 1, 1, 2])):
+        r, v = sat_rule(rng, rng.choice([0, 0, 1]), raising)
+        ctx.append([k, r])
+        smp[k] = v
+    return ctx, smp
+
+
+def rule_policy(rng, uid, raising=True):
+    fields = {}
+    samples = {}
+    for f in ('subjects', 'resources', 'actions'):
+        els = []
+        smp = []
+        for _ in range(rng.choice([0] + [1] * 12 + [2] * 5)):
+            if rng.random() < 0.5:
+                r, v = sat_rule(rng, rng.choice([0, 1, 1, 2]), raising)
+                els.append(['r', r])
+                smp.append(v)
+            else:
+                kvs = []
+                d = {}
+                for k in rng.sample(['a', 'name', 'id', 'role'], rng.choice([0, 1, 1, 1, 1, 2, 2, 2, 3])):
+                    if raising and rng.random() < 0.06:
+                        kvs.append([k, ['Junk', rng.choice([1, 'x', None])]])
+                        d[k] = 1
+                    else:
+                        r, v = sat_rule(rng, rng.choice([0, 0, 1]), raising)
+                        kvs.append([k, r])
+                        d[k] = v
+                els.append(['d', kvs])
+                if rng.random() < 0.07 and d:
+                    d.pop(rng.choice(list(d)))
+                if rng.random() < 0.2:
+                    d['extra'] = 1
+                smp.append(d if rng.random() < 0.96 else scalar(rng))
+        fields[f] = els
+        samples[f] = smp
+    ctx, ctx_samples = context_spec(rng, raising)
+    p = {'uid': uid, 'effect': rng.choice(EFFECTS), 'subjects': fields['subjects'], 'resources': fields['resources'],
+         'actions': fields['actions'], 'context': ctx, 'description': rng.choice([None, 'd%s' % uid]),
+         'tags': ['<', '>']}
+    return p, [], samples, ctx_samples
+
+
+def scenario(rng, ck, n_policies=None, tags=('<', '>'), max_segs=2, illtyped=0.03, raising=True):
+    """-> dict(checker, policies, inquiry, rxtable) with roughly half of (policy, inquiry) pairs matching"""
+    n = n_policies if n_policies is not None else rng.choice([0, 1, 2, 2, 3, 3, 4, 5, 6])
+    pols, table, smps, csmps = [], [], [], []
+    for k in range(n):
+        rule_kind = (ck == 'CRules')
+        if rng.random() < 0.15:
+            rule_kind = not rule_kind
+        uid = rng.choice([k + 1, 'p%d' % (k + 1)])
+        if rule_kind:
+            p, t, s, c = rule_policy(rng, uid, raising)
+        else:
+            p, t, s, c = string_policy(rng, uid, tags, max_segs)
+        pols.append(p)
+        table += t
+        smps.append(s)
+        csmps.append(c)
+    # siblings: copies of a policy with another effect / uid, so that several policies match at once
+    if pols and rng.random() < 0.5:
+        k = rng.randrange(len(pols))
+        q = dict(pols[k])
+        q['uid'] = 'sib%d' % len(pols)
+        q['effect'] = rng.choice(EFFECTS)
+        pols.append(q)
+        smps.append(smps[k])
+        csmps.append(csmps[k])
+    inq = {}
+    target = rng.randrange(len(pols)) if pols else None
+    if pols:
+        def is_rule_kind(p):
+            return any(e[0] != 's' for f in ('subjects', 'resources', 'actions') for e in p[f])
+        good = [i for i, p in enumerate(pols) if is_rule_kind(p) == (ck == 'CRules')]
+        if good:
+            target = rng.choice(good)
+    for f, name in (('subjects', 'subject'), ('resources', 'resource'), ('actions', 'action')):
+        v = None
+        if target is not None and smps[target][f] and rng.random() < 0.93:
+            v = rng.choice(smps[target][f])
+            if isinstance(v, dict) and 'CRegex' in v and 'CExact' in v:
+                v = v[ck]
+            if v is None:
+                v = word(rng)
+            if isinstance(v, str) and rng.random() < 0.08:
+                v = mutate_str(rng, v)
+        elif rng.random() < 0.5:
+            v = word(rng)
+        else:
+            v = value(rng, 1)
+        if rng.random() < illtyped:
+            v = rng.choice([None, 5, ['a'], {'a': 1}, 2.5])
+        inq[name] = jv(v)
+    ctx = {}
+    if target is not None:
+        for k, v in csmps[target].items():
+            if rng.random() < 0.93:
+                ctx[k] = v
+    if rng.random() < 0.3:
+        ctx['extra'] = 1
+    if rng.random() < 0.03:
+        ctx = rng.choice([None, ['ip'], 'ctx', 7])
+    inq['context'] = jv(ctx)
+    return {'checker': ck, 'policies': pols, 'inquiry': inq, 'rxtable': table}
